@@ -1,0 +1,144 @@
+//! The lock types used by the in-memory zone tree.
+//!
+//! These are `parking_lot`'s. Only when the crate is built with
+//! `--cfg domain_verif` (verification builds; never set by Cargo features)
+//! does acquiring a lock first pass through a hook, so that a test scheduler
+//! can decide which thread proceeds at every lock acquisition. Without that
+//! cfg flag nothing here adds any code.
+
+pub(super) use parking_lot::RwLockWriteGuard;
+
+#[cfg(not(domain_verif))]
+pub(super) use parking_lot::{RwLock, RwLockUpgradableReadGuard};
+
+/// Upgrades an upgradable read lock to a write lock.
+#[cfg(not(domain_verif))]
+pub(super) fn upgrade<'a, T>(
+    guard: RwLockUpgradableReadGuard<'a, T>,
+) -> RwLockWriteGuard<'a, T> {
+    RwLockUpgradableReadGuard::upgrade(guard)
+}
+
+#[cfg(domain_verif)]
+pub(super) use hooked::{RwLock, upgrade};
+
+#[cfg(domain_verif)]
+pub mod hooked {
+    //! Lock wrappers that consult a hook before every acquisition attempt.
+
+    use core::sync::atomic::{AtomicUsize, Ordering};
+    use parking_lot::{
+        RwLockReadGuard, RwLockUpgradableReadGuard, RwLockWriteGuard,
+    };
+
+    /// The kind of acquisition about to be attempted.
+    #[derive(Clone, Copy, Debug, Eq, PartialEq)]
+    pub enum LockOp {
+        /// A shared lock.
+        Read,
+        /// An exclusive lock.
+        Write,
+        /// A shared lock that can be upgraded.
+        UpgradableRead,
+        /// The upgrade of such a lock to an exclusive one.
+        Upgrade,
+    }
+
+    /// Called before every acquisition attempt with the address of the
+    /// lock, the operation and the number of attempts that already failed.
+    /// Returning `false` makes the attempt count as failed without trying.
+    pub type Hook = fn(lock: usize, op: LockOp, failed: u32) -> bool;
+
+    static HOOK: AtomicUsize = AtomicUsize::new(0);
+
+    /// Installs (or with `None` removes) the process-wide hook.
+    pub fn set_hook(hook: Option<Hook>) {
+        HOOK.store(hook.map(|h| h as usize).unwrap_or(0), Ordering::SeqCst);
+    }
+
+    fn consult(lock: usize, op: LockOp, failed: u32) -> bool {
+        let h = HOOK.load(Ordering::SeqCst);
+        if h == 0 {
+            // No scheduler: behave like a spin on try-lock.
+            if failed > 0 {
+                std::thread::yield_now();
+            }
+            return true;
+        }
+        // Safety: only ever stored from a `Hook` in `set_hook`.
+        let h: Hook = unsafe { core::mem::transmute::<usize, Hook>(h) };
+        h(lock, op, failed)
+    }
+
+    /// A `parking_lot::RwLock` whose acquisitions consult the hook.
+    #[derive(Debug, Default)]
+    pub struct RwLock<T>(parking_lot::RwLock<T>);
+
+    impl<T> RwLock<T> {
+        /// Creates a new lock.
+        pub fn new(value: T) -> Self {
+            Self(parking_lot::RwLock::new(value))
+        }
+
+        fn id(&self) -> usize {
+            self as *const Self as usize
+        }
+
+        /// Locks for shared access.
+        pub fn read(&self) -> RwLockReadGuard<'_, T> {
+            let mut failed = 0;
+            loop {
+                if consult(self.id(), LockOp::Read, failed) {
+                    if let Some(guard) = self.0.try_read() {
+                        return guard;
+                    }
+                }
+                failed += 1;
+            }
+        }
+
+        /// Locks for exclusive access.
+        pub fn write(&self) -> RwLockWriteGuard<'_, T> {
+            let mut failed = 0;
+            loop {
+                if consult(self.id(), LockOp::Write, failed) {
+                    if let Some(guard) = self.0.try_write() {
+                        return guard;
+                    }
+                }
+                failed += 1;
+            }
+        }
+
+        /// Locks for shared, upgradable access.
+        pub fn upgradable_read(&self) -> RwLockUpgradableReadGuard<'_, T> {
+            let mut failed = 0;
+            loop {
+                if consult(self.id(), LockOp::UpgradableRead, failed) {
+                    if let Some(guard) = self.0.try_upgradable_read() {
+                        return guard;
+                    }
+                }
+                failed += 1;
+            }
+        }
+    }
+
+    /// Upgrades an upgradable read lock to a write lock.
+    pub fn upgrade<'a, T>(
+        mut guard: RwLockUpgradableReadGuard<'a, T>,
+    ) -> RwLockWriteGuard<'a, T> {
+        let id = RwLockUpgradableReadGuard::rwlock(&guard)
+            as *const parking_lot::RwLock<T> as usize;
+        let mut failed = 0;
+        loop {
+            if consult(id, LockOp::Upgrade, failed) {
+                match RwLockUpgradableReadGuard::try_upgrade(guard) {
+                    Ok(write) => return write,
+                    Err(back) => guard = back,
+                }
+            }
+            failed += 1;
+        }
+    }
+}
